@@ -204,6 +204,9 @@ func (x *Exec) storeSet(st *State, key Val, val Val, pos string) {
 	case *EncVal:
 		if e.Enc == kv.Fam.Enc && e.V.Sort == kv.Fam.ValSort {
 			v = e.V
+		} else if e.Enc == kv.Fam.Enc && e.V != nil {
+			// a gogotypes wrapper marshalled as its value, stored in a family declared with the wrapper type
+			v = rewrapGogo(e.V, kv.Fam.ValSort)
 		}
 	case *Term:
 		if kv.Fam.Enc == "raw" && e.Sort == SBytes {
